@@ -163,7 +163,10 @@ func c05(e *Env) {
 			break
 		}
 		checked++
-		for n := range down {
+		for _, n := range hosts {
+			if !down[n] {
+				continue
+			}
 			n.Restart()
 			for _, pp := range f.preps { // the restarted node learns the statements again (C08 owns re-preparation)
 				if pp.usable {
